@@ -150,7 +150,7 @@ func H_C15_Enterprise() {
 		return
 	}
 	rt.Reach("imported")
-	rt.Assert("C03+C04+C05+C13+C15+C17.ent-state-identical-after-import", ee.MS.Store(enttypes.StoreKey).SameAs(e2.MS.Store(enttypes.StoreKey)))
+	rt.Assert("C03+C04+C05+C13+C15+C17+C18.ent-state-identical-after-import", ee.MS.Store(enttypes.StoreKey).SameAs(e2.MS.Store(enttypes.StoreKey)))
 	g2 := enterprise.ExportGenesis(e2.Ctx, k2)
 	rt.Assert("C15.ent-re-export-identical", rt.ProtoEqual(g, g2))
 	// importing twice (the module appears twice in the application's genesis order) is idempotent
